@@ -91,6 +91,22 @@ impl Ctx {
         }
     }
 
+    /// C04, value route only (non-finite floats have no text form that reads back)
+    fn rt_value<T: Serialize + DeserializeOwned + PartialEq + Debug>(&mut self, x: T) {
+        self.cases += 1;
+        let r = catch_unwind(AssertUnwindSafe(|| {
+            let v = to_value(&x).map_err(|e| format!("to_value failed: {}", e))?;
+            let y: T = from_value(&v).map_err(|e| format!("from_value({}) failed: {}", v, e))?;
+            if y != x { return Err(format!("value round trip: {:?} -> {} -> {:?}", x, v, y)); }
+            Ok::<(), String>(())
+        }));
+        match r {
+            Ok(Ok(())) => {}
+            Ok(Err(e)) => self.fail(format!("C04 {}: {}", std::any::type_name::<T>(), e)),
+            Err(_) => self.fail(format!("C04 {}: panic for {:?}", std::any::type_name::<T>(), x)),
+        }
+    }
+
     /// C14: documented shape
     fn shape<T: Serialize + Debug>(&mut self, x: T, want: Value) {
         self.cases += 1;
@@ -150,7 +166,7 @@ impl Ctx {
 fn value_corpus() -> Vec<Value> {
     let mut v = vec![
         Value::Nil, Value::Null, Value::Bool(true), Value::Bool(false), Value::from(0u64), Value::from(1u64), Value::from(255u64), Value::from(256u64),
-        Value::from(-1i64), Value::from(i64::MIN), Value::from(u64::MAX), Value::from(1u64 << 63), Value::from(1.5f64), Value::from(-0.0f64), Value::from(1e300f64),
+        Value::from(-1i64), Value::from(i64::MIN), Value::from(u64::MAX), Value::from(1u64 << 63), Value::from(1.5f64), Value::from(-0.0f64), Value::from(1e300f64), Value::from(-1e39f64), Value::list(vec![Value::from(1e39f64)]),
         Value::from('a'), Value::from('\u{3bb}'), Value::string(""), Value::string("a"), Value::string("A"), Value::symbol("A"), Value::symbol("a"), Value::symbol("x"),
         Value::keyword("A"), Value::keyword("x"), Value::bytes(Vec::<u8>::new()), Value::bytes(vec![1u8, 2, 255]),
         Value::vector(Vec::<Value>::new()), Value::vector(vec![Value::from(1)]), Value::vector(vec![Value::from(1), Value::from(2)]),
@@ -187,6 +203,8 @@ pub fn serde_check() -> (usize, Vec<String>) {
     for x in [i64::MIN, i64::MIN + 1, -(1 << 53) - 1, -1, 0, i64::MAX] { c.rt(x); c.rt((x, x)); }
     for x in [0.0f64, -0.0, 1.5, -2.25, 1e15, 1e-7, 0.1, 1e21, f64::MAX, f64::MIN_POSITIVE, 123456.789] { c.rt(x); }
     for x in [0.0f32, 1.5, -2.25, 0.1, 1e-7, f32::MAX] { c.rt(x); }
+    for x in [f64::INFINITY, f64::NEG_INFINITY] { c.rt_value(x); c.rt_value(vec![x]); c.rt_value(Some(x)); c.rt_value((x,)); }
+    for x in [f32::INFINITY, f32::NEG_INFINITY] { c.rt_value(x); c.rt_value(vec![x]); }
     c.rt(true); c.rt(false); c.rt(());
     for x in ['a', ' ', '(', '\n', '\u{0}', '\u{7f}', '\u{e9}', '\u{3bb}', '\u{ffff}', '\u{1F600}', ';', '"', '\\', '#'] { c.rt(x); c.rt(vec![x, x]); }
     for x in ["", "a", "a b", "\"q\"\\", "λ\u{7f}\u{0}\n\t", "nil", "#t", "(", "\u{1F600}"] { c.rt(x.to_string()); c.rt(vec![x.to_string()]); }
@@ -229,6 +247,8 @@ pub fn serde_check() -> (usize, Vec<String>) {
     c.rejects::<Vec<u32>>(sexp!((1 2 . 3))); c.rejects::<Vec<u32>>(sexp!((1 . 2))); c.rejects::<(u32, String)>(sexp!((42 "Answer" . 7)));
     c.rejects::<Pair>(sexp!((42 "Answer" . 7))); c.rejects::<E>(sexp!((T 42 "bye" . 7))); c.rejects::<[u8; 2]>(sexp!((1 2 . 3)));
     c.rejects::<BTreeSet<u8>>(sexp!((1 2 . 3))); c.rejects::<Vec<Vec<u32>>>(sexp!(((1 . 2))));
+    c.rejects::<(u8, u8)>(Value::bytes(vec![1u8, 2])); c.rejects::<[u8; 3]>(Value::bytes(vec![1u8, 2, 3])); c.rejects::<Pair>(Value::bytes(vec![1u8, 2]));
+    c.rejects::<Vec<(u16, u16)>>(Value::list(vec![Value::bytes(vec![1u8, 2])])); c.rejects::<(u8,)>(Value::bytes(vec![1u8]));
     c.rejects::<Vec<u32>>(Value::Nil); c.rejects::<BTreeSet<u8>>(Value::Nil); c.rejects::<(u32, u32)>(Value::Nil); c.rejects::<Pair>(Value::Nil);
     c.rejects::<BTreeMap<String, u8>>(Value::Nil); c.rejects::<Header>(Value::Nil); c.rejects::<String>(Value::Nil); c.rejects::<u8>(Value::Nil);
     c.rejects::<Vec<Vec<u32>>>(sexp!((#nil))); c.rejects::<E>(Value::Nil); c.rejects::<bool>(Value::Nil); c.rejects::<char>(Value::Nil);
@@ -249,7 +269,7 @@ pub fn serde_check() -> (usize, Vec<String>) {
     // ---- C18 totality + self consistency
     let corpus = value_corpus();
     for v in &corpus {
-        c.total::<u8>(v); c.total::<u64>(v); c.total::<i64>(v); c.total::<f64>(v); c.total::<bool>(v); c.total::<char>(v); c.total::<String>(v); c.total::<()>(v);
+        c.total::<u8>(v); c.total::<u64>(v); c.total::<i64>(v); c.total::<f64>(v); c.total::<f32>(v); c.total::<Vec<f32>>(v); c.total::<Option<f32>>(v); c.total::<bool>(v); c.total::<char>(v); c.total::<String>(v); c.total::<()>(v);
         c.total::<Option<u8>>(v); c.total::<Option<Option<u8>>>(v); c.total::<Option<()>>(v); c.total::<Option<Vec<u8>>>(v); c.total::<Vec<u8>>(v); c.total::<Vec<Option<u8>>>(v);
         c.total::<Vec<Vec<u32>>>(v); c.total::<(u32,)>(v); c.total::<(u32, String)>(v); c.total::<(u32, u32, u32)>(v); c.total::<[u8; 3]>(v); c.total::<Vec<(u32, u32)>>(v);
         c.total::<BTreeMap<String, u8>>(v); c.total::<BTreeMap<char, u8>>(v); c.total::<BTreeMap<String, E>>(v); c.total::<BTreeSet<u8>>(v);
